@@ -29,3 +29,29 @@ package fox
 //@   modifies s.route.annots, mapof(s.route.annots)
 //@   ensures rejected: !hashable(key) ==> result != nil && errIs(result, ErrInvalidConfig) && s.route.annots == old(s.route.annots)
 //@   ensures stored: hashable(key) ==> result == nil && s.route.annots != nil && s.route.annots[key] == value
+
+//@ func WithClientIPResolver$1 props C19
+//@   implements optionFunc.call
+//@   modifies s.router.clientip, s.route.clientip
+//@   ensures ok: result == nil
+//@   ensures router: s.router != nil ==> s.router.clientip == (resolver != nil ? resolver : old(s.router.clientip))
+//@   ensures route-set: s.route != nil && resolver != nil ==> s.route.clientip == resolver
+//@   ensures route-none: s.route != nil && resolver == nil ==> dyntypeIs(s.route.clientip, noClientIPResolver)
+
+//@ func (*Route).ClientIPResolver props C19
+//@   requires r != nil
+//@   ensures none: dyntypeIs(r.clientip, noClientIPResolver) ==> result == nil
+//@   ensures some: !dyntypeIs(r.clientip, noClientIPResolver) ==> result == r.clientip
+
+//@ func (*Route).Hostname props C19
+//@   requires r != nil && 0 <= r.hostSplit && r.hostSplit <= len(r.pattern)
+//@   ensures result == r.pattern[:r.hostSplit]
+//@ func (*Route).Path props C19
+//@   requires r != nil && 0 <= r.hostSplit && r.hostSplit <= len(r.pattern)
+//@   ensures result == r.pattern[r.hostSplit:]
+//@ func (*Route).Pattern props C19
+//@   requires r != nil
+//@   ensures result == r.pattern
+//@ func (*Route).ParamsLen props C19
+//@   requires r != nil
+//@   ensures result == r.psLen
